@@ -34,7 +34,12 @@ impl<T> ResourceStorage<T> {
 	#[must_use]
 	pub fn new(capacity: usize) -> (Self, ResourceController<T>) {
 		let (new_resource_producer, new_resource_consumer) = RingBuffer::new(capacity);
-		let (unused_resource_producer, unused_resource_consumer) = RingBuffer::new(capacity);
+		// one more than the arena holds: remove_and_add frees a slot before it
+		// hands the removed resource back, so the other thread can reserve that
+		// slot (finding nothing to drain yet), and if that newcomer is dropped
+		// again before anything else is inserted, capacity + 1 removed
+		// resources are waiting to be collected
+		let (unused_resource_producer, unused_resource_consumer) = RingBuffer::new(capacity + 1);
 		let resources = Arena::new(capacity);
 		let arena_controller = resources.controller();
 		(
